@@ -376,6 +376,9 @@ func checkC19(w *World, r *Report) {
 	n := checkStringUnits(w, r, "R19.1", false)
 	r.Counts["string-measuring constructs in the sibling implementations"] = n
 	checkOptionalDefaults(w, r)
+	// R19.3: the emptiness routine behind `default` (and the empty test)
+	nz := checkZeroTests(w, r, "R19.3", func(f *types.Func) bool { return f.Name() == "isEmptyValue" }, "treated as non-empty: `default` does not replace it although it replaces int 0")
+	r.Counts["zero tests in the emptiness routine"] = nz
 }
 
 // checkOptionalDefaults: R19.2.  Pattern: a local is assigned a constant default D, re-assigned
